@@ -434,9 +434,9 @@ Section Info.
     Definition parse_entry_at_body (c : cache) (pos offset : Z) : res (entry * cache * Z) :=
       match cache_get c offset with
       | Some e =>
-          (* self.stream.seek(entry.header.length + ilfs, os.SEEK_CUR) *)
+          (* self.stream.seek(offset + entry.header.length + ilfs): right after the entry *)
           do n <- entry_extent e;
-          Ok (e, c, pos + n)
+          Ok (e, c, offset + n)
       | None =>
           let base := base_structs self in
           do (entry_length, p1) <- run_at (Dwarf_uint32 base) (stream self) offset;
